@@ -86,13 +86,40 @@ def dataclass_decorator(I, a, k):
             for f in fields:
                 I_.setattr(self, f, vals[f])
 
-        cls.ns["__init__"] = Builtin(f"{cls.name}.__init__", init)
+        if opts.get("init", True) is not False:
+            cls.ns["__init__"] = Builtin(f"{cls.name}.__init__", init)
         cls.ns["__dataclass_fields__"] = tuple(fields)
+        if opts.get("eq", True) is not False and "__eq__" not in cls.ns:
+            cls.ns["__eq__"] = DataclassEq(cls, tuple(fields))
         return cls
 
+    opts = dict(k)
+    unknown = set(opts) - {"slots", "eq", "init", "repr", "kw_only", "frozen", "order", "unsafe_hash", "match_args", "weakref_slot"}
+    if unknown:
+        raise PyExc("TypeError", (f"dataclass() got an unexpected keyword argument '{sorted(unknown)[0]}'",))
+    for flag in ("frozen", "order", "unsafe_hash", "kw_only"):
+        if opts.get(flag, False) is not False:
+            raise Unsupported(f"dataclass({flag}=True)")
     if a and isinstance(a[0], ClassVal):
         return apply(a[0])
     return Builtin("dataclass()", lambda I_, aa, kk: apply(aa[0]))
+
+
+class DataclassEq(Ext):
+    """the __eq__ a dataclass gets: same class and equal field tuples, else NotImplemented"""
+    type_name = "dataclass-eq"
+
+    def __init__(self, cls, fields, bound=None):
+        self.cls, self.fields, self.bound = cls, fields, bound
+
+    def bind_to(self, obj):
+        return DataclassEq(self.cls, self.fields, bound=obj)
+
+    def py_call(self, I, args, kwargs):
+        me, other = (self.bound, args[0]) if self.bound is not None else (args[0], args[1])
+        if not (hasattr(other, "cls") and other.cls is me.cls):
+            return ops.NOT_IMPLEMENTED
+        return ops.compare(I, "Eq", tuple(I.getattr(me, f) for f in self.fields), tuple(I.getattr(other, f) for f in self.fields))
 
 
 def deepcopy(I, a, k):
@@ -135,17 +162,18 @@ def make_models(extra_numpy=None):
         typing_names[n] = TypingMarker(n)
     typing_names["TYPE_CHECKING"] = False
     typing_names["cast"] = Builtin("cast", lambda I, a, k: a[1])
-    typing_names["TypeVar"] = Builtin("TypeVar", lambda I, a, k: TypingMarker("TypeVar:" + str(a[0])))
+    typing_names["TypeVar"] = Builtin("TypeVar", lambda I, a, k: TypingMarker("TypeVar:" + str(a[0])), lenient=True)
     M["typing"] = ExtModule("typing", typing_names)
     M["collections.abc"] = ExtModule("collections.abc", {n: TypingMarker(n) for n in ["Generator", "Callable", "Iterator"]})
     M["collections"] = ExtModule("collections", {"abc": M["collections.abc"]})
     M["abc"] = ExtModule("abc", {"ABC": TypingMarker("ABC"), "abstractmethod": Builtin("abstractmethod", lambda I, a, k: a[0])})
-    M["warnings"] = ExtModule("warnings", {"warn": Builtin("warn", lambda I, a, k: I.path.event("warn", ops.describe(a[0]) if a else ""))})
+    M["warnings"] = ExtModule("warnings", {"warn": Builtin("warn", lambda I, a, k: I.path.event("warn", ops.describe(a[0]) if a else ""), lenient=True)})
     M["copy"] = ExtModule("copy", {"deepcopy": Builtin("deepcopy", deepcopy)})
     M["dataclasses"] = ExtModule("dataclasses", {"dataclass": Builtin("dataclass", dataclass_decorator)})
     M["contextlib"] = ExtModule("contextlib", {
         "suppress": Builtin("suppress", lambda I, a, k: ("suppress", list(a))),
         "ExitStack": Builtin("ExitStack", lambda I, a, k: ExitStackModel()),
+        "contextmanager": Builtin("contextmanager", lambda I, a, k: ContextManagerFactory(a[0])),
     })
     M["weakref"] = ExtModule("weakref", {"proxy": Builtin("proxy", lambda I, a, k: a[0])})
     M["math"] = make_math()
@@ -165,13 +193,77 @@ def make_models(extra_numpy=None):
         for x in items:
             acc = I.call(f, [acc, x], {})
         return acc
-    M["functools"] = ExtModule("functools", {"reduce": Builtin("functools.reduce", reduce_)})
+    class Partial(Ext):
+        type_name = "functools.partial"
+
+        def __init__(self, f, args, kwargs):
+            self.f, self.args, self.kwargs = f, list(args), dict(kwargs)
+
+        def py_call(self, I, a, k):
+            return I.call(self.f, self.args + list(a), dict(self.kwargs, **k))
+    M["functools"] = ExtModule("functools", {"reduce": Builtin("functools.reduce", reduce_),
+                                             "partial": Builtin("functools.partial", lambda I, a, k: Partial(a[0], a[1:], k))})
+
+    class Getter(Ext):
+        type_name = "operator getter"
+
+        def __init__(self, kind, names, kw=None):
+            self.kind, self.names, self.kw = kind, names, kw or {}
+
+        def py_call(self, I, a, k):
+            def one(obj, nm):
+                if self.kind == "attr":
+                    for part in nm.split("."):
+                        obj = I.getattr(obj, part)
+                    return obj
+                return ops.getitem(I, obj, nm)
+            if self.kind == "method":
+                return I.call(I.getattr(a[0], self.names[0]), list(self.names[1:]), dict(self.kw))
+            vals = [one(a[0], nm) for nm in self.names]
+            return vals[0] if len(vals) == 1 else tuple(vals)
+
+    def islice(I, a, k):
+        it = ops.iterate(I, a[0])
+        nums = [x for x in a[1:]]
+        if not all(x is None or (isinstance(x, int) and not isinstance(x, bool)) for x in nums):
+            raise Unsupported("itertools.islice with symbolic bounds")
+        import itertools as _it
+        return ops.IterVal(_it.islice(it, *nums))
+
+    def chain(I, a, k):
+        import itertools as _it
+        return ops.IterVal(_it.chain.from_iterable(ops.iterate(I, x) for x in a))
+
+    def starmap(I, a, k):
+        f = a[0]
+        return ops.IterVal((I.call(f, list(ops.iterate(I, args)), {}) for args in ops.iterate(I, a[1])))
+
+    def repeat(I, a, k):
+        if len(a) < 2 or not isinstance(a[1], int):
+            raise Unsupported("itertools.repeat without a concrete count")
+        return ops.IterVal(iter([a[0]] * a[1]))
+    M["itertools"] = ExtModule("itertools", {"islice": Builtin("itertools.islice", islice), "chain": Builtin("itertools.chain", chain),
+                                             "starmap": Builtin("itertools.starmap", starmap), "repeat": Builtin("itertools.repeat", repeat)})
     M["operator"] = ExtModule("operator", {
         "truediv": Builtin("operator.truediv", lambda I, a, k: ops.binop(I, "/", a[0], a[1])),
         "mul": Builtin("operator.mul", lambda I, a, k: ops.binop(I, "*", a[0], a[1])),
         "add": Builtin("operator.add", lambda I, a, k: ops.binop(I, "+", a[0], a[1])),
         "sub": Builtin("operator.sub", lambda I, a, k: ops.binop(I, "-", a[0], a[1])),
         "neg": Builtin("operator.neg", lambda I, a, k: ops.unop(I, "USub", a[0])),
+        "iadd": Builtin("operator.iadd", lambda I, a, k: ops.binop(I, "+", a[0], a[1], True)),
+        "isub": Builtin("operator.isub", lambda I, a, k: ops.binop(I, "-", a[0], a[1], True)),
+        **{nm: Builtin(f"operator.{nm}", (lambda cmp: lambda I, a, k: ops.compare(I, cmp, a[0], a[1]))(cmp))
+           for nm, cmp in (("is_", "Is"), ("is_not", "IsNot"), ("eq", "Eq"), ("ne", "NotEq"), ("lt", "Lt"), ("le", "LtE"), ("gt", "Gt"), ("ge", "GtE"))},
+        **{nm: Builtin(f"operator.{nm}", (lambda sym, inp: lambda I, a, k: ops.binop(I, sym, a[0], a[1], inp))(sym, inp))
+           for nm, sym, inp in (("floordiv", "//", False), ("mod", "%", False), ("pow", "**", False), ("matmul", "@", False), ("and_", "&", False), ("or_", "|", False),
+                                ("xor", "^", False), ("imul", "*", True), ("itruediv", "/", True), ("ior", "|", True), ("iand", "&", True))},
+        "not_": Builtin("operator.not_", lambda I, a, k: ops.unop(I, "Not", a[0])),
+        "truth": Builtin("operator.truth", lambda I, a, k: ops.truth(I, a[0])),
+        "contains": Builtin("operator.contains", lambda I, a, k: ops.compare(I, "In", a[1], a[0])),
+        "getitem": Builtin("operator.getitem", lambda I, a, k: ops.getitem(I, a[0], a[1])),
+        "attrgetter": Builtin("operator.attrgetter", lambda I, a, k: Getter("attr", list(a))),
+        "itemgetter": Builtin("operator.itemgetter", lambda I, a, k: Getter("item", list(a))),
+        "methodcaller": Builtin("operator.methodcaller", lambda I, a, k: Getter("method", list(a), k)),
     })
     M["ase.units"] = ExtModule("ase.units", dict(UNITS))
     M["ase"] = ExtModule("ase", {"units": M["ase.units"]})
@@ -222,6 +314,25 @@ class StdStream(Ext):
         if name == "name":
             return f"<{self.name}>"
         raise Unsupported(f"sys.{self.name}.{name}")
+
+
+class ContextManagerFactory(Ext):
+    """contextlib.contextmanager(f): calling it runs f up to its generator object and wraps that"""
+    type_name = "contextmanager-function"
+
+    def __init__(self, func, bound=None):
+        self.func, self.bound = func, bound
+
+    def bind_to(self, obj):
+        return ContextManagerFactory(self.func, bound=obj)
+
+    def py_call(self, I, args, kwargs):
+        from ..interp import GenCM
+        from ..objects import GeneratorVal
+        g = I.call(self.func, ([self.bound] if self.bound is not None else []) + list(args), kwargs)
+        if not isinstance(g, GeneratorVal):
+            raise Unsupported("contextmanager over a function that is not a generator function")
+        return GenCM(g)
 
 
 class ExitStackModel(Ext):
